@@ -349,8 +349,16 @@ def r4_teardown(ctx):
     from .C13 import teardown_reaches_all
     teardown_reaches_all(ctx, 'C12.R4')
     ctx.set_rule('C12.R4')
-    # per module: the user's at_sim_end runs whatever state the module is in (a module that is shut down, or was deactivated by a caught
-    # panic, when the run ends still gets its one tear-down call)
+    teardown_regardless_of_activity(ctx, 'C12.R4')
+    ctx.set_rule('C12.R4')
+    bad = _reorder_ops(f)
+    ctx.check(not bad, 'no-reorder-teardown', 'the module sequence is not reordered or pruned during tear-down', f.where(), [x.name for x in bad])
+
+
+def teardown_regardless_of_activity(ctx, rule):
+    """per module: tear-down runs whatever state the module is in (a module that is shut down, or was deactivated by a caught panic, when
+    the run ends still gets its one at_sim_end call, and the outcomes of its joined tasks are still collected); shared with C13.R3"""
+    ctx.set_rule(rule)
     g = ctx.P.fns.get(EV + 'at_sim_end')
     if g is not None:
         ctx.touch(g)
@@ -364,19 +372,30 @@ def r4_teardown(ctx):
                          or (a and a[0] == 'bool' and a[1][0] == 'call' and a[1][1].endswith(('is_active',)))]
                 ctx.check(not gated, 'teardown-regardless-of-activity', "a module's at_sim_end is delivered whether or not the module is active when the run ends (exactly once per module)",
                           c.where(), [show_atom(a) for a in gated])
-    bad = _reorder_ops(f)
-    ctx.check(not bad, 'no-reorder-teardown', 'the module sequence is not reordered or pruned during tear-down', f.where(), [x.name for x in bad])
+        # nothing in the per-module tear-down (bracket, harness, collection of joined tasks' outcomes) is skipped for an inactive module
+        def reads_active(a):
+            return a and isinstance(a[1], tuple) and (any(x[0] == 'field' and x[2] == 'active' for x in walk(a[1])) or
+                                                      (a[0] == 'bool' and a[1][0] == 'call' and a[1][1].endswith('is_active')))
+        gated_sites = [(c, [a for _, a in g.guard_atoms(c.b) if reads_active(a)]) for c in g.calls()]
+        gated_sites = [(c, ga) for c, ga in gated_sites if ga]
+        ctx.check(not gated_sites, 'teardown-complete-for-inactive', "no step of a module's tear-down depends on whether the module is active",
+                  gated_sites[0][0].where() if gated_sites else g.where(), [c.name for c, _ in gated_sites][:4])
 
 
 def _path_presence_test(P, tree, depth=4):
     """does the boolean `tree` (a call, possibly handing a closure to an accessor) compare ObjectPaths while looking through the module
     sequence?  (`tree.contains(path)` = `modules.iter().any(|n| n.path == *path)` reached through helpers / closures)"""
-    todo = []
-    for x in walk(tree):
+    # only the test's own callee and the closures handed to it count (not what its arguments were computed from: the lookup of the
+    # *parent* also compares paths), and the test must not be about the parent path
+    if tree[0] != 'call' or any(x[0] == 'call' and x[1].split('::')[-1] in ('nonzero_parent', 'parent') for x in walk(tree)):
+        return False
+    todo = [tree[1]] if tree[1] in P.fns and tree[1].startswith('des::net::') else []
+    for x in tree[2]:
+        x = peel_c(x)
         if x[0] == 'agg' and str(x[1]).startswith('closure:'):
             todo.append(str(x[1])[len('closure:'):])
-        elif x[0] == 'call' and x[1] in P.fns and x[1].startswith('des::net::'):
-            todo.append(x[1])
+    if not todo:
+        return False
     seen = set()
     for _ in range(depth):
         nxt = []
